@@ -199,11 +199,10 @@ Proof. exact @ls_residual_is_tr_error. Qed.
 Print Assumptions C06_tr_als_residual_is_ring_error.
 
 (* parafac's callback BEFORE the loop under mask + sparsity: since fix 835cf01 the pair handed over is the one the error was
-   computed for; with the sparse component of the UN-imputed tensor (the behaviour before the fix) the two differ *)
-Theorem C06_callback0_consistent : forall (F : Type) (Op : fops F) (X L m : tensor F) (card : nat),
+   computed for (true by definition of the model: an Example); with the sparse component of the UN-imputed tensor (the behaviour before the fix) the two differ *)
+Example C06_callback0_consistent_by_definition : forall (F : Type) (Op : fops F) (X L m : tensor F) (card : nat),
   cb0_reported Op X L m card = cb0_error_of_handed Op false X L m card.
 Proof. exact @cb0_consistent. Qed.
-Print Assumptions C06_callback0_consistent.
 Theorem C06_callback0_legacy_refuted :
   exists (X L m : tensor Z) (card : nat),
     fst (cb0_reported Zops X L m card) <> fst (cb0_error_of_handed Zops true X L m card).
@@ -220,7 +219,8 @@ Proof. exact skeleton_wrong_pairing_refuted. Qed.
 Print Assumptions C06_skeleton_wrong_pairing_refuted.
 
 (* ---- the reported VALUES over the reals: sqrt, abs and the division by the norm inside the model.  reported q nx = sqrt(|q|)/sqrt(nx)
-   is what the shortcuts return (q = quantity under the sqrt, nx = ||X||^2); rel_error d2 nx = sqrt(d2)/sqrt(nx) *)
+   is what the shortcuts return (q = quantity under the sqrt, nx = ||X||^2); rel_error d2 nx = sqrt(d2)/sqrt(nx).
+   The values are meaningful for ||X|| > 0 only: for the zero tensor Coq's total division gives 0 on both sides, the code NaN. *)
 Theorem C06_error_calc_reported_value : forall (s : list nat) (X : list nat -> R) (Rk : nat) (w u v : nat -> R) (cols : nat -> list (nat -> R)) (n : nat),
   n < length s -> (forall r, r < Rk -> length (cols r) = length s) -> (forall r, r < Rk -> (u r * v r)%R = w r) ->
   reported (err2_fast Rops s X Rk w u v cols n) (normsq Rops s X)
@@ -237,30 +237,30 @@ Theorem C06_parafac2_reported_value : forall (I K Rk : nat) (J : nat -> nat) (X 
   = rel_error (p2_err2_true Rops I K Rk J X P A Bm C) (p2_normX Rops I K J X).
 Proof. exact parafac2_reported_value. Qed.
 Print Assumptions C06_parafac2_reported_value.
-(* CMTF, documented squared form: norm(X - cp)**2 + norm(Y - cp_Y)**2 is the sum of the two squared residuals *)
-Theorem C06_cmtf_reported_value : forall (sX sY : list nat) (X LX Y LY : list nat -> R),
+(* immediate remark (Example): CMTF, documented squared form: norm(X - cp)**2 + norm(Y - cp_Y)**2 is the sum of the two squared residuals *)
+Example C06_cmtf_squared_form_remark : forall (sX sY : list nat) (X LX Y LY : list nat -> R),
   cmtf_reported sX sY X LX Y LY = (dist2 Rops sX X LX + dist2 Rops sY Y LY)%R.
 Proof. exact cmtf_reported_value. Qed.
-Print Assumptions C06_cmtf_reported_value.
 (* the square of the relative error is the ratio the correspondence compares, and the value is never negative *)
 Theorem C06_rel_error_square : forall d2 nx : R, (0 <= d2)%R -> (0 < nx)%R -> (rel_error d2 nx * rel_error d2 nx)%R = (d2 / nx)%R.
 Proof. exact rel_error_sq. Qed.
 Print Assumptions C06_rel_error_square.
-(* the abs under the square root keeps its argument non-negative whatever the rounding perturbation; without it (PARAFAC2
+(* immediate remarks (Examples, not counted as property theorems): the abs under the square root keeps its argument non-negative whatever the rounding perturbation; without it (PARAFAC2
    before b590c64) an exact fit and a negative perturbation leave a negative argument (NaN in floating point) *)
-Theorem C06_abs_guard_total : forall q delta : R, sqrt_arg_ok (Rabs (q + delta)).
+Example C06_abs_guard_remark : forall q delta : R, sqrt_arg_ok (Rabs (q + delta)).
 Proof. exact abs_guard_total. Qed.
-Print Assumptions C06_abs_guard_total.
-Theorem C06_unguarded_sqrt_refuted : exists q delta : R, (0 <= q)%R /\ (Rabs delta <= 1 / 1000000)%R /\ ~ sqrt_arg_ok (q + delta).
+Example C06_unguarded_sqrt_remark : exists q delta : R, (0 <= q)%R /\ (Rabs delta <= 1 / 1000000)%R /\ ~ sqrt_arg_ok (q + delta).
 Proof. exact unguarded_sqrt_refuted. Qed.
-Print Assumptions C06_unguarded_sqrt_refuted.
 
-(* cp_normalize transcribed over the reals (column norms, zero norms replaced by 1, weights multiplied by the norms) IS a rescaling,
-   zero columns included; hence the composed loop theorem holds with the REAL normalisation and no hypothesis about it *)
-Theorem C06_cp_normalize_is_rescaling : forall (s : list nat) (Rk : nat) (st : blocks (@blk R)),
-  rescaling Rops s Rk st (cp_normalize_R s st).
-Proof. exact cp_normalize_is_rescaling. Qed.
-Print Assumptions C06_cp_normalize_is_rescaling.
+(* cp_normalize transcribed step by step over the reals (tensorly/cp_tensor.py: factor 0 absorbs the incoming weights and the weights
+   restart from ones; then every factor is divided by its column norms, zero norms replaced by 1, and the weights are multiplied by
+   the norms) keeps the squared residual of the represented CP tensor, for EVERY state: zero columns, zero and negative incoming
+   weights included (where the absorption step is not a rescaling); hence the composed loop theorem holds with the REAL
+   normalisation and no hypothesis about it *)
+Theorem C06_cp_normalize_preserves_error : forall (s : list nat) (X : list nat -> R) (Rk : nat) (st : blocks (@blk R)),
+  0 < length s -> cp_err2 Rops s X Rk (cp_normalize_R s st) = cp_err2 Rops s X Rk st.
+Proof. exact cp_normalize_preserves_error. Qed.
+Print Assumptions C06_cp_normalize_preserves_error.
 Theorem C06_cp_loop_reports_true_errors_with_cp_normalize : forall (s : list nat) (X : list nat -> R) (Rk : nat) (weighted_mttkrp : bool)
   (Orc : oracle (@blk R)) (C : config),
   (forall st, normalized Orc st = cp_normalize_R s st) ->
@@ -273,19 +273,101 @@ Theorem C06_cp_loop_reports_true_errors_with_cp_normalize : forall (s : list nat
 Proof. exact cp_loop_reports_true_errors_R. Qed.
 Print Assumptions C06_cp_loop_reports_true_errors_with_cp_normalize.
 
-(* ---- loops that compute one explicit residual per iteration (CMTF since d036ea5, the non-negative Tucker variants, HOOI, randomised
+(* ---- loops that record one error value per iteration and normalise the iterate afterwards, also on the exits (CMTF since d036ea5, the
+   non-negative Tucker variants, HOOI with its shortcut value, randomised
    CP since 28121fa): for every oracle (updates, convergence stops, callback stops) the last recorded value is the error of the returned iterate,
    provided the value is recorded before the callback may stop the run OR the callback never stops it *)
-Theorem C06_explicit_loop_last_report : forall (St E : Type) (err : St -> E) (Or : soracle St) (record_before_callback : bool),
+Theorem C06_explicit_loop_last_report : forall (St E : Type) (err : St -> E) (Or : soracle St) (record_before_callback normalize : bool),
+  (forall st, err (s_norm Or st) = err st) ->
   record_before_callback = true \/ (forall it, s_cb_stop Or it = false) ->
-  forall (n : nat) (init : St), 0 < n -> s_last_ok St E err (s_loop err Or record_before_callback n 0 init []).
+  forall (n : nat) (init : St), 0 < n -> s_last_ok St E err (s_loop err Or record_before_callback normalize n 0 init []).
 Proof. exact s_loop_sound. Qed.
 Print Assumptions C06_explicit_loop_last_report.
 (* recording AFTER the callback (randomised_parafac before fix 28121fa) is not sound: a callback stop leaves the previous iterate's error *)
 Theorem C06_randomised_callback_stop_legacy_refuted :
-  exists (Or : soracle nat) (n : nat) (init : nat), 0 < n /\ ~ s_last_ok nat nat (fun st => st) (s_loop (fun st : nat => st) Or false n 0 init []).
+  exists (Or : soracle nat) (n : nat) (init : nat), 0 < n /\ ~ s_last_ok nat nat (fun st => st) (s_loop (fun st : nat => st) Or false true n 0 init []).
 Proof. exact s_loop_callback_stop_refuted. Qed.
 Print Assumptions C06_randomised_callback_stop_legacy_refuted.
+
+(* ---- round 5 ---- *)
+(* the EXECUTED model of cp_normalize (Model/Errors.v:cp_normalize_F, the column norms handed in as an answer tape, run against the code by
+   Corr/C06.v:KNormalize which validates the tape by squaring) coincides with the transcription over the reals for every tape of
+   non-negative numbers whose squares are the column sums of squares, hence keeps the squared residual of the represented CP tensor:
+   every order >= 1, shape, rank, state (zero columns, zero / negative incoming weights included) *)
+Theorem C06_cp_normalize_model_is_transcription : forall (s : list nat) (st : blocks (@blk R)) (sc : nat -> nat -> R),
+  (forall k r, k < length s -> (0 <= sc k r)%R /\ (sc k r * sc k r)%R = colsq Rops s (absorb_weights_F Rops s st) k r) ->
+  forall k i r, cp_normalize_F Rops s sc st k i r = cp_normalize_R s st k i r.
+Proof. exact cp_normalize_F_is_cp_normalize_R. Qed.
+Print Assumptions C06_cp_normalize_model_is_transcription.
+Theorem C06_cp_normalize_tape_preserves_error : forall (s : list nat) (X : list nat -> R) (Rk : nat) (st : blocks (@blk R)) (sc : nat -> nat -> R),
+  0 < length s ->
+  (forall k r, k < length s -> (0 <= sc k r)%R /\ (sc k r * sc k r)%R = colsq Rops s (absorb_weights_F Rops s st) k r) ->
+  cp_err2 Rops s X Rk (cp_normalize_F Rops s sc st) = cp_err2 Rops s X Rk st.
+Proof. exact cp_normalize_tape_preserves_error. Qed.
+Print Assumptions C06_cp_normalize_tape_preserves_error.
+(* non-vacuity: for every state the real column norms are such a tape *)
+Example C06_cp_normalize_tape_exists : forall (s : list nat) (st : blocks (@blk R)),
+  forall k r, k < length s -> (0 <= colnorm s (absorb_weights s st) k r)%R /\
+    (colnorm s (absorb_weights s st) k r * colnorm s (absorb_weights s st) k r)%R = colsq Rops s (absorb_weights_F Rops s st) k r.
+Proof. exact colnorm_good_tape. Qed.
+
+(* tucker_normalize, ring form (non-negative Tucker variants with normalize_factors=True normalise AFTER recording the error): rescaling
+   the columns of every factor and letting the core absorb the scales changes no entry of the represented tensor, hence not the
+   squared residual; every commutative ring, order, shape, multilinear rank *)
+Theorem C06_tucker_rescaling_preserves_tensor : forall (F : Type) (Op : fops F),
+  ring_theory (f0 Op) (f1 Op) (fadd Op) (fmul Op) (fsub Op) (fopp Op) (@eq F) ->
+  forall (s rs : list nat) (G G' : list nat -> F) (us us' : list (nat -> nat -> F)) (ds : list (nat -> F)),
+  tscaled Op s rs us us' ds -> (forall j, inb rs j -> G' j = fmul Op (G j) (proddl Op ds j)) ->
+  forall idx, inb s idx -> tucker_entry Op rs G' us' idx = tucker_entry Op rs G us idx.
+Proof. exact @tucker_entry_rescale. Qed.
+Print Assumptions C06_tucker_rescaling_preserves_tensor.
+(* ... and the EXECUTED model of tucker_normalize (tucker_normalize_core / tucker_normalize_factors with a validated tape of column norms,
+   run against the code by Corr/C06.v:KTuckerNormalize) over the reals keeps the squared residual, zero columns included *)
+Theorem C06_tucker_normalize_tape_preserves_error : forall (s rs : list nat) (X G : list nat -> R) (st : blocks (@blk R)) (sc : nat -> nat -> R),
+  length rs = length s ->
+  (forall k a, k < length s -> (0 <= sc k a)%R /\ (sc k a * sc k a)%R = colsq Rops s st k a) ->
+  dist2 Rops s X (tucker_entry Rops rs (tucker_normalize_core Rops (length s) sc G) (tucker_us (length s) (tucker_normalize_factors Rops sc st)))
+  = dist2 Rops s X (tucker_entry Rops rs G (tucker_us (length s) st)).
+Proof. exact tucker_normalize_tape_preserves_error. Qed.
+Print Assumptions C06_tucker_normalize_tape_preserves_error.
+Example C06_tucker_normalize_tape_exists : forall (s : list nat) (st : blocks (@blk R)),
+  forall k a, k < length s -> (0 <= colnorm s st k a)%R /\ (colnorm s st k a * colnorm s st k a)%R = colsq Rops s st k a.
+Proof. exact colnorm_good_tucker_tape. Qed.
+(* a sign flip of one factor column absorbed by the core is a Tucker rescaling over Z: 2x1 factor (1, 2) = (-1) * (-1, -2) *)
+Example C06_tucker_rescaling_nonvacuous :
+  let u : nat -> nat -> Z := fun i _ => match i with 0%nat => 1%Z | _ => 2%Z end in
+  let u' : nat -> nat -> Z := fun i _ => match i with 0%nat => (-1)%Z | _ => (-2)%Z end in
+  tscaled Zops [2] [1] [u] [u'] [fun _ => (-1)%Z] /\
+  tucker_entry Zops [1] (fun _ => (-3)%Z) [u'] [1] = tucker_entry Zops [1] (fun _ => 3%Z) [u] [1].
+Proof.
+  cbv zeta. split; [|vm_compute; reflexivity]. cbn. split; [|exact I].
+  intros i a Hi Ha. destruct i as [|[|i]]; [reflexivity | reflexivity | lia].
+Qed.
+
+(* EVERY entry of the returned list, not only the last: entry j of the list a run of n iterations returns is the error of the iterate
+   RETURNED by the same run cut after j+1 iterations (same oracle, same start), i.e. of the iterate of its iteration.  For the loops
+   with one recorded value per iteration (either record / callback ordering, every stop pattern, normalisation after recording) ... *)
+Theorem C06_explicit_loop_every_entry : forall (St E : Type) (err : St -> E) (Or : soracle St) (record_before_callback normalize : bool),
+  (forall st, err (s_norm Or st) = err st) ->
+  forall (n : nat) (init : St) (j : nat), j < length (snd (s_loop err Or record_before_callback normalize n 0 init [])) ->
+  nth_error (snd (s_loop err Or record_before_callback normalize n 0 init [])) j
+  = Some (err (fst (s_loop err Or record_before_callback normalize (S j) 0 init []))).
+Proof. exact s_loop_every_entry. Qed.
+Print Assumptions C06_explicit_loop_every_entry.
+(* ... and for the PARAFAC2 loop with Bro's line search (accepted and rejected jumps, normalisation, convergence stops) *)
+Theorem C06_parafac2_skeleton_every_entry : forall (St E : Type) (err : St -> E) (Or : p2oracle St) (ls normalize : bool),
+  (forall st, err (p2_norm Or st) = err st) ->
+  forall (n : nat) (init : St) (j : nat), j < length (snd (p2_loop err Or ls normalize false n 0 init [])) ->
+  nth_error (snd (p2_loop err Or ls normalize false n 0 init [])) j
+  = Some (err (fst (p2_loop err Or ls normalize false (S j) 0 init []))).
+Proof. exact p2_loop_every_entry. Qed.
+Print Assumptions C06_parafac2_skeleton_every_entry.
+Example C06_every_entry_nonvacuous :
+  snd (s_loop (fun st : nat => st) toy_s true true 5 0 0 []) = [fst (s_loop (fun st : nat => st) toy_s true true 1 0 0 []);
+                                                               fst (s_loop (fun st : nat => st) toy_s true true 2 0 0 [])] /\
+  nth_error (snd (p2_loop (fun st : nat => st) toy_p2 true false false 9 0 0 [])) 6
+  = Some (fst (p2_loop (fun st : nat => st) toy_p2 true false false 7 0 0 [])).
+Proof. vm_compute. split; reflexivity. Qed.
 
 (* ---- non-vacuity: the hypotheses are satisfiable and the model computes *)
 Example C06_ring_Z : ring_theory (f0 Zops) (f1 Zops) (fadd Zops) (fmul Zops) (fsub Zops) (fopp Zops) (@eq Z).
@@ -370,9 +452,17 @@ Proof.
   replace 4%R with (2 * 2)%R by ring. replace 9%R with (3 * 3)%R by ring. rewrite !sqrt_square by lra. split; reflexivity.
 Qed.
 Example C06_explicit_loop_nonvacuous :
-  s_loop (fun st : nat => st) toy_s true 5 0 0 [] = (2, [1; 2]) /\ s_loop (fun st : nat => st) toy_s false 5 0 0 [] = (2, [1]).
+  s_loop (fun st : nat => st) toy_s true true 5 0 0 [] = (2, [1; 2]) /\ s_loop (fun st : nat => st) toy_s false true 5 0 0 [] = (2, [1]).
 Proof. exact s_loop_nonvacuous. Qed.
 
 (* the transcription of cp_normalize computes: a column (3, 4) has norm 5 *)
 Example C06_colnorm_nonvacuous : colnorm [2%nat] (fun _ i _ => match i with 0%nat => 3%R | _ => 4%R end) 0 0 = 5%R.
 Proof. exact colnorm_3_4. Qed.
+
+(* the absorption step of cp_normalize matters for non-positive incoming weights: weight -2, factor-0 column (3, 4): the weights restart
+   from 1 and factor 0 becomes (-6, -8) before the column normalisation (weight 10, column (-3/5, -4/5) afterwards) *)
+Example C06_cp_normalize_negative_weight :
+  let st : blocks (@blk R) := fun k i _ => match k with 0%nat => (match i with 0%nat => 3%R | _ => 4%R end) | 1%nat => 1%R | _ => (-2)%R end in
+  w_of [2%nat; 1%nat] (absorb_weights [2%nat; 1%nat] st) 0%nat = 1%R /\
+  absorb_weights [2%nat; 1%nat] st 0%nat 0%nat 0%nat = (-6)%R /\ absorb_weights [2%nat; 1%nat] st 0%nat 1%nat 0%nat = (-8)%R.
+Proof. exact cp_normalize_negative_weight. Qed.
